@@ -6,7 +6,7 @@
    It is compared with the transliterated calAndSetEventNode pass (`eventize (compile t)`) and with Go's own
    event-mode program on every correspondence case (codes 10 and 3). In the model an OP_EXEC event IS the
    observation `OCall name fast args result` made when the operator is applied; a LOOP event is `OLoop`. *)
-Require Import Base Opcode Tables Ops Tree Opt Flat FlatE Run CompFacts EvalDefs EvalTop EvalCorrectE EvalTopE.
+Require Import Base Opcode Tables Ops Tree Opt Flat FlatE Run CompFacts EvalDefs EvalTop EvalCorrectE EvalTopE TryCorrect TryCorrectE.
 Open Scope Z_scope.
 
 (* Eval of the event program: the result (value or the very error), the fetches and the OP_EXEC events —
@@ -21,6 +21,16 @@ Proof. exact run_compileE_correct. Qed.
 Theorem C12_events_transparent : forall fetch custom t,
   dl (eval fetch custom (compileE t)) = eval fetch custom (compile t).
 Proof. exact events_transparent. Qed.
+
+(* the same for TryEval: on the event program it computes `trysem` — value or error, fetches of available variables,
+   operator applications (OP_EXEC) in order — LOOP events being the only addition; so the event options never change
+   the result of TryEval either *)
+Theorem C12_tryeval_event_program_is_trysem : forall fetch custom cached t,
+  dl (tryeval fetch custom cached (compileE t)) = sem_obs (trysem fetch custom cached t).
+Proof. exact tryrun_compileE_correct. Qed.
+Theorem C12_tryeval_events_transparent : forall fetch custom cached t,
+  dl (tryeval fetch custom cached (compileE t)) = tryeval fetch custom cached (compile t).
+Proof. exact try_events_transparent. Qed.
 
 (* without event nodes no LOOP event is ever emitted *)
 Theorem C12_plain_no_loops : forall fetch custom t,
@@ -51,3 +61,4 @@ Proof. vm_compute. split; reflexivity. Qed.
 
 Print Assumptions C12_event_program_is_sem.
 Print Assumptions C12_events_transparent.
+Print Assumptions C12_tryeval_events_transparent.
